@@ -147,21 +147,36 @@ pub fn c15_dim_hash_variable_label_sets() {
     dim_pair(&["x"], false, &["x", "y"], false, false);
     vcover!(true, "end of harness reached");
 }
-/// dim_hash: a const label x is not a variable label x; same const-name set with different
-/// values keeps the signature (and changes the identity).
+/// dim_hash: a const label x is not a variable label x.
 #[cfg_attr(kani, kani::proof, kani::unwind(6),
     kani::stub(std::fmt::format, fmt_scripted),
     kani::stub(<[crate::proto::LabelPair]>::sort, sort_stub),
     kani::stub(<fnv::FnvHasher as std::hash::Hasher>::write, fnv_write_injective))]
 pub fn c15_dim_hash_const_vs_variable() {
     dim_pair(&[], true, &["x"], false, false);
+    vcover!(true, "end of harness reached");
+}
+/// dim_hash: same const-name set with different values keeps the signature (and changes the identity).
+#[cfg_attr(kani, kani::proof, kani::unwind(6),
+    kani::stub(std::fmt::format, fmt_scripted),
+    kani::stub(<[crate::proto::LabelPair]>::sort, sort_stub),
+    kani::stub(<fnv::FnvHasher as std::hash::Hasher>::write, fnv_write_injective))]
+pub fn c15_dim_hash_same_const_names_different_values() {
     dim_pair(&["y"], true, &["y"], true, true);
+    vcover!(true, "end of harness reached");
+}
+/// dim_hash: a const label present vs absent.
+#[cfg_attr(kani, kani::proof, kani::unwind(6),
+    kani::stub(std::fmt::format, fmt_scripted),
+    kani::stub(<[crate::proto::LabelPair]>::sort, sort_stub),
+    kani::stub(<fnv::FnvHasher as std::hash::Hasher>::write, fnv_write_injective))]
+pub fn c15_dim_hash_const_present_vs_absent() {
     dim_pair(&[], true, &[], false, false);
     vcover!(true, "end of harness reached");
 }
 
 /// id with two const labels where one value is empty: ("", v) and (w, "") are told apart (the
-/// position of an empty value matters), and equal exactly when both positions agree.
+/// position of an empty value matters).
 #[cfg_attr(kani, kani::proof, kani::unwind(6),
     kani::stub(std::fmt::format, fmt_stub),
     kani::stub(<[crate::proto::LabelPair]>::sort, sort_stub),
@@ -192,6 +207,8 @@ pub fn dispatch(name: &str) -> Option<fn()> {
         "c15_id_two_const_labels_order_independent" => c15_id_two_const_labels_order_independent,
         "c15_dim_hash_variable_label_sets" => c15_dim_hash_variable_label_sets,
         "c15_dim_hash_const_vs_variable" => c15_dim_hash_const_vs_variable,
+        "c15_dim_hash_same_const_names_different_values" => c15_dim_hash_same_const_names_different_values,
+        "c15_dim_hash_const_present_vs_absent" => c15_dim_hash_const_present_vs_absent,
         _ => return None,
     })
 }
